@@ -36,14 +36,24 @@ def eff_key(e):
       doc="VolumeManager::write: every effect (allocation, cache mutation, store into the open-file record) is reachable only through the false edge of `file.mode == Mode::ReadOnly`")
 def md2(F, R):
     fn = F.fn(VM + "::write")
-    ro = g_cmp("Eq", False, lambda a: last_field(a) == "mode" and table_of_term(a) == "open_files", lambda b: is_variant(b, "Mode::ReadOnly"))
+    # decide every test of the open file's mode for Mode::ReadOnly (==, !=, match, if let, matches!): no effect may stay reachable
+    from .ev import specialise_enum
+    modes = F.variants("filesystem::files::Mode")
+    is_mode = lambda a: a[0] == "place" and last_field(a) == "mode" and table_of_term(a) == "open_files"
+    cut = specialise_enum(fn, is_mode, modes, "ReadOnly")
+    rs = fn.reach([0], cut_edges=cut)
+    R.require(bool(cut), fn, "mode-test", "write() never tests the open file's mode", fn.loc(0))
     for e in all_effects(fn):
-        ok, edges = guarded(fn, e[0], ro)
-        R.require(ok, fn, eff_key(e), "effect %s %s reachable without passing `mode != ReadOnly`" % (e[2], e[3]), fn.loc(e[0], e[1]),
-                  okdetail="effect %s guarded by mode != ReadOnly (%d guard edges)" % (e[3], len(edges)))
-    # the refusal itself: Err(ReadOnly) exists under the true edge
+        R.require(e[0] not in rs, fn, eff_key(e), "effect %s %s reachable without passing `mode != ReadOnly`" % (e[2], e[3]), fn.loc(e[0], e[1]),
+                  okdetail="effect %s unreachable for a ReadOnly file (%d test edges decided)" % (e[3], len(cut)))
+    # the refusal itself: Err(ReadOnly) is what a ReadOnly file gets, and every other mode can get past the test
     errs = [x for x in err_returns(fn) if x[2] == "ReadOnly"]
-    R.require(len(errs) >= 1, fn, "refusal", "write() has no `Err(Error::ReadOnly)` return", fn.loc(0), okdetail="Err(ReadOnly) return present")
+    R.require(len(errs) >= 1 and any(x[0] in rs for x in errs) and not any(x[0] in rs for x in ok_returns(fn)), fn, "refusal", "write() on a ReadOnly file must end in `Err(Error::ReadOnly)`", fn.loc(0), okdetail="Err(ReadOnly) return present")
+    for m in modes:
+        if m == "ReadOnly":
+            continue
+        rs2 = fn.reach([0], cut_edges=specialise_enum(fn, is_mode, modes, m))
+        R.require(any(x[0] in rs2 for x in ok_returns(fn)) and not any(x[0] in rs2 for x in errs), fn, "writable:" + m, "write() refuses a file opened in mode %s" % m, fn.loc(0))
 
 
 def _lookup_var(fn):
@@ -419,16 +429,27 @@ def sk1(F, R):
         if not st:
             R.bad(fn, "anchor", "no store to current_offset", kind="anchor-missing")
         arg = lambda t: t[0] == "arg" and t[1] == 2
+        def checked_diff(g):
+            """Some edge of size.checked_sub(offset): taken exactly when offset <= size"""
+            t = g.term
+            return g.kind == "variant" and g.variant == "Some" and t[0] == "call" and t[1] and t[1].endswith("::checked_sub") and is_size(t[2][0]) and arg(strip_refs(t[2][1]))
         for b, i in st:
-            ok, _ = guarded(fn, b, lambda g: (g_cmp("Gt", False, arg, is_size)(g) or g_cmp("Le", True, arg, is_size)(g) or g_cmp("Lt", False, is_size, arg)(g) or g_cmp("Ge", True, is_size, arg)(g)))
+            ok, _ = guarded(fn, b, lambda g: g_cmp("Le", True, arg, is_size)(g) or checked_diff(g))
             R.require(ok, fn, "bound", "current_offset stored without `offset <= size`", fn.loc(b, i))
     fn = F.fn("FileInfo::seek_from_current")
     st = stores(fn)
     if not st:
         R.bad(fn, "anchor", "no store to current_offset", kind="anchor-missing")
     for b, i in st:
-        lo, _ = guarded(fn, b, lambda g: g_cmp("Lt", False, None, lambda z: z[:2] == ("c", 0))(g) or g_cmp("Ge", True, None, lambda z: z[:2] == ("c", 0))(g))
-        hi, _ = guarded(fn, b, lambda g: g_cmp("Gt", False, None, is_size)(g) or g_cmp("Le", True, None, is_size)(g))
+        def in_range(g):
+            """(0..=size).contains(&new) taken true"""
+            t = g.term
+            if not (g.kind == "bool" and g.truth is True and t[0] == "call" and t[1] and t[1].endswith("::contains") and len(t[2]) == 2):
+                return False
+            r = strip_refs(t[2][0])
+            return r[0] == "call" and r[1] and r[1].endswith("RangeInclusive::new") and r[2][0][:2] == ("c", 0) and is_size(r[2][1])
+        lo, _ = guarded(fn, b, lambda g: g_cmp("Ge", True, None, lambda z: z[:2] == ("c", 0))(g) or in_range(g))
+        hi, _ = guarded(fn, b, lambda g: g_cmp("Le", True, None, is_size)(g) or in_range(g))
         R.require(lo, fn, "lower", "current_offset stored without `new >= 0`", fn.loc(b, i))
         R.require(hi, fn, "upper", "current_offset stored without `new <= size`", fn.loc(b, i))
         # the sum is formed in a type that holds every u32 + i32 exactly (i64): a 32-bit sum rejects or wraps positions >= 2 GiB
@@ -457,7 +478,9 @@ def sk1(F, R):
     fn_e = F.fn("FileInfo::seek_from_end")
     for b, i in stores(fn_e):
         v = fn_e.term_of_rvalue(fn_e.blocks[b]["stmts"][i]["rv"], b)
-        R.require(peq(v, SUB(("place", ("arg", 1, "self"), ("*", "entry", "size")), ("arg", 2, "offset"))), fn_e, "stores-size-minus-offset", "seek_from_end must store size - offset, stores %s" % tstr(v), fn_e.loc(b, i))
+        size_t = ("place", ("arg", 1, "self"), ("*", "entry", "size"))
+        via_checked = v[0] == "place" and tuple(v[2]) == ("as:Some", "0") and v[1][0] == "call" and v[1][1] and v[1][1].endswith("::checked_sub") and peq(v[1][2][0], size_t) and strip_refs(v[1][2][1])[:2] == ("arg", 2)
+        R.require(via_checked or peq(v, SUB(size_t, ("arg", 2, "offset"))), fn_e, "stores-size-minus-offset", "seek_from_end must store size - offset, stores %s" % tstr(v), fn_e.loc(b, i))
     fn = F.fn(VM + "::write")
     ul = [(b, t) for b, t in fn.calls() if call_matches(t, ("FileInfo::update_length",))]
     if not ul:
@@ -545,23 +568,61 @@ def cp2(F, R):
     rem = [(b, t) for b, t in fn.calls() if call_matches(t, ("Vec::swap_remove",))]
     if not rem:
         R.bad(fn, "anchor", "no swap_remove in close_volume", kind="anchor-missing")
+    from .ev import norm_bool
+    from .specialise import specialise_on
+
+    def any_scan(tab):
+        """(block, pred) of `<tab>.iter().any(|x| x.raw_volume == volume)` calls: the iterator form of the scan loop"""
+        out = []
+        for b, t in fn.calls():
+            if not (callee_of(t) or "").endswith("Iterator::any"):
+                continue
+            ct = fn.call_term(t, b)
+            if _iter_table(fn, ct) != tab:
+                continue
+            clo = strip_refs(ct[2][1])
+            if not (clo[0] == "agg" and clo[1] == "Closure" and len(clo[3]) == 1 and strip_refs(clo[3][0])[:2] == ("arg", 2)):
+                continue
+            cf = [c for c in F.closures_of(fn) if c.path_matches(clo[2])] if hasattr(fn, "path_matches") else [c for c in F.closures_of(fn) if strip_generics(c.npath) == strip_generics(clo[2]) or c.npath.endswith(clo[2].split("::")[-1])]
+            okc = False
+            for c in cf:
+                rets = [c.term_of_rvalue(x[3], x[1]) if x[0] == "assign" else c.call_term(x[2], x[1]) for x in c.defs().get(0, [])]
+                if len(rets) == 1:
+                    tt, truth = norm_bool(rets[0], True)
+                    if tt[0] == "cmp" and tt[1] == "Eq" and truth:
+                        sides = [strip_refs(tt[2]), strip_refs(tt[3])]
+                        item = [x for x in sides if x[0] == "place" and strip_refs(x[1])[:2] == ("arg", 2) and last_field(x) == "raw_volume"]
+                        cap = [x for x in sides if x[0] == "place" and strip_refs(x[1])[:2] == ("arg", 1)]
+                        okc = len(item) == 1 and len(cap) == 1
+            if okc:
+                out.append((b, (lambda q, b=b: q[0] == "call" and q[1] and q[1].endswith("Iterator::any") and q[3] == b)))
+        return out
+
+    errs = [x for x in err_returns(fn) if x[2] == "VolumeStillInUse"]
     for b, t in rem:
         for tab in ("open_files", "open_dirs"):
             # the loop over `tab` must have terminated with None (exhausted) before the removal
             def pr(g, tab=tab):
                 return g.kind == "variant" and g.variant == "None" and g.term[0] == "call" and g.term[1].endswith("Iterator::next") and _iter_table(fn, g.term) == tab
             ok, _ = guarded(fn, b, pr)
+            if not ok:
+                # ... or `<tab>.iter().any(|x| x.raw_volume == volume)` decided true must make the removal unreachable and end in VolumeStillInUse
+                for (ab, apred) in any_scan(tab):
+                    rs = fn.reach([0], cut_edges=specialise_on(fn, apred, 1))
+                    if b not in rs and any(x[0] in rs for x in errs) and not any(x[0] in rs for x in ok_returns(fn)):
+                        ok = True
             R.require(ok, fn, "scan:" + tab, "volume removed without a completed scan of %s" % tab, fn.loc(b))
-    for tab in ("open_files", "open_dirs"):
-        errs = [x for x in err_returns(fn) if x[2] == "VolumeStillInUse"]
-        found = False
-        for (b, i, var, term) in errs:
-            ok, _ = guarded(fn, b, g_cmp("Eq", True, lambda a: "raw_volume" in tstr(a), None))
-            ok2, _ = guarded(fn, b, g_cmp("Eq", True, None, lambda a: "raw_volume" in tstr(a)))
-            if ok or ok2:
-                found = True
-        R.require(found, fn, "in-use-exit", "no VolumeStillInUse exit guarded by raw_volume equality", fn.loc(0))
-        break
+    found = False
+    for (b, i, var, term) in errs:
+        ok, _ = guarded(fn, b, g_cmp("Eq", True, lambda a: "raw_volume" in tstr(a), None))
+        found = found or ok
+    if not found and errs:
+        scans = any_scan("open_files") + any_scan("open_dirs")
+        # with every scan decided false the in-use exit must be unreachable
+        from .specialise import specialise_all
+        rs = fn.reach([0], cut_edges=specialise_all(fn, [(p_, 0) for (_b, p_) in scans]))
+        found = len(scans) == 2 and not any(x[0] in rs for x in errs)
+    R.require(found, fn, "in-use-exit", "no VolumeStillInUse exit guarded by raw_volume equality", fn.loc(0))
     fn = F.fn(VM + "::open_raw_volume")
     pushes = [(b, t) for b, t in fn.calls() if call_matches(t, ("Vec::push",)) and table_of_term(fn.term_of_operand(t["args"][0], b)) == "open_volumes"]
     if not pushes:
